@@ -9,6 +9,15 @@ correspondence: TerminalExpr(LogicalExpr(e, D), D.logical_domain) and LogicalExp
                 (tens_equiv_hyps, with sin^2 = 1 - cos^2 / sqrt relations for analytical mappings)
 oracle        : explicit composition on the implementation side (tools/impl/C03_impl.py): polynomial fields, explicit
                 mapping, logical unknowns defined by the pull-back formulas, classical evaluation at the image point
+interface     : props/C03if.py + impl/C03if_impl.py - TerminalExpr(LogicalExpr(e, I), I.logical_domain) for expressions of functions
+                RESTRICTED to one side of an interface I of a two-patch domain with different mappings per patch (symbolic, one
+                shared symbolic mapping, identity / affine / polar with matched parametrisation, orientation -1), five kinds,
+                d = 1, 2, 3; model Model/LogicalIfM.v (each one-sided sub-expression through Model/LogicalM.v with the mapping and
+                the atoms of ITS side), theorems C03_restricted_sound / C03_interface_sound; oracle: explicit matched maps, different
+                polynomials per side, evaluation at the two logical points of one physical point
+direct calls  : impl/C03dc_impl.py - Jacobian(M), Covariant(M, v), Contravariant(M, v) on symbolic / catalogue / user mappings,
+                v as tuple / list / Tuple / Matrix / ImmutableDenseMatrix, and the refusals as an enum (C03_covariant_call,
+                C03_contravariant_call)
 """
 import copy
 import json
@@ -663,6 +672,17 @@ PROPOSED_KNOWN = [
              "them by those of the plus copy, the JacobianSymbol arm does not)",
      "match": {"family": "interface", "feature": "plus-jacobian-of-shared-mapping", "kind": "if-wrong-value",
                "plus_mapping": "same-symbolic"}},
+    {"property": "C03", "status": "known", "id": "C03-interface-1d-analytical-plus-mapping",
+     "what": "interface (a point) between two 1-D patches, analytical mapping on the plus side: lowering the Jacobian / inverse "
+             "Jacobian of the plus side raises TypeError \"'Symbol' object is not subscriptable\" (TerminalExpr indexes "
+             "domain.coordinates, which is a single Symbol for a 1-D patch): grad(plus(u)), plus(p) for an L2 function, ...; "
+             "dx(plus(u)) is transformed",
+     "match": {"family": "interface", "feature": "1d-analytical-plus-mapping", "kind": "if-raised"}},
+    {"property": "C03", "status": "known", "id": "C03-contravariant-derivative-entries",
+     "what": "Contravariant(M, v) with v a tuple / list / Tuple one of whose entries is a derivative atom (dx1(u), ..): "
+             "Matrix(v) takes the derivative object for a row and raises ValueError 'expecting list of lists' / TypeError "
+             "\"object of type 'dx1' has no len()\"; Covariant and a Matrix argument work",
+     "match": {"family": "direct-call", "call": "Contravariant", "kind": "dc-refused-wellformed", "entries": "derivative-atoms"}},
 ]
 
 
@@ -873,7 +893,11 @@ def main(run, replay=None):
                 continue
             orc = r.get("oracle", {})
             if "0" in C03if.sides_of(c["tree"]):
-                istats["unrestricted_value"] = istats.get("unrestricted_value", 0) + 1       # no reference: not decided
+                # the generator puts functions without restriction only under differential operators, where the code
+                # must choose ONE of the two mappings: a value is not meaningful (the unchanged code refuses)
+                istats["unrestricted_value"] = istats.get("unrestricted_value", 0) + 1
+                ifail("if-unrestricted-accepted", "a differential operator applied to a function WITHOUT restriction on an "
+                      "interface is transformed (with which of the two mappings?) instead of being refused")
                 continue
             if orc.get("ok") is False:
                 istats["wrong_value"] += 1
@@ -900,7 +924,7 @@ def main(run, replay=None):
             dc, out, wf = c["dc"], r["out"], c.get("wellformed")
             ibump("dc_call", dc["call"]); ibump("dc_container", dc["container"]); ibump("dc_kind", wf)
             what, v = code.get(ci, ("value", 9))
-            sigd = {"family": "direct-call", "call": dc["call"], "wellformed": wf}
+            sigd = {"family": "direct-call", "call": dc["call"], "wellformed": wf, "entries": C03if.dc_entries_class(c)}
             if "err" in out:
                 ibump("dc_refusal", "%s:%s:%s" % (dc["call"], wf, out["err"]))
                 if wf == "well-formed" and out["err"] != "timeout":
@@ -1056,7 +1080,7 @@ def main(run, replay=None):
         c = cases[ci]
         if kind.startswith("sig:"):
             sig = json.loads(kind[4:])
-            fam = json.dumps({k: v for k, v in sig.items() if k in ("kind", "feature", "family", "call", "wellformed", "exc")}, sort_keys=True)
+            fam = json.dumps({k: v for k, v in sig.items() if k in ("kind", "feature", "family", "call", "wellformed", "entries")}, sort_keys=True)
             if fam in reported:
                 continue
             reported.add(fam)
